@@ -118,6 +118,8 @@ func VerifyFunc(ld *Loader, db *ContractDB, fn *ssa.Function, ct *FuncContract, 
 	}
 	out, res := ex.execBody(fr, st)
 	if out != nil {
+		ex.vc.exitGuard = out.guard
+		ex.vc.exitPrefix = len(ex.vc.cmds)
 		// lock balance at return
 		if ex.lockChecks {
 			keys := map[string]bool{}
@@ -196,27 +198,42 @@ func ownerName(t types.Type) string {
 	return ""
 }
 
-func (ex *Exec) lockDeclFor(a *Addr) (*LockDecl, string) {
-	if a.Kind != AHeap || len(a.Path) != 1 || a.Path[0].IsIdx {
-		return nil, ""
+// lockDeclFor finds the lock declaration for a mutex address: the mutex is a
+// field of a (possibly nested) struct; the owner is the struct that directly
+// contains it. Returns the declaration, the owner's address and type.
+func (ex *Exec) lockDeclFor(a *Addr) (*LockDecl, *Addr, types.Type) {
+	if a.Kind != AHeap || len(a.Path) == 0 {
+		return nil, nil, nil
 	}
-	on := ownerName(a.Root)
-	st, ok := a.Root.Underlying().(*types.Struct)
-	if !ok {
-		return nil, ""
-	}
-	fname := st.Field(a.Path[0].Field).Name()
-	for _, ld := range ex.db.locks {
-		if ld.Owner == on && ld.MuField == fname {
-			return ld, a.Ref
+	t := a.Root
+	for i, el := range a.Path {
+		if el.IsIdx {
+			return nil, nil, nil
 		}
+		st, ok := t.Underlying().(*types.Struct)
+		if !ok {
+			return nil, nil, nil
+		}
+		if i == len(a.Path)-1 {
+			on := ownerName(t)
+			fname := st.Field(el.Field).Name()
+			for _, ld := range ex.db.locks {
+				if ld.Owner == on && ld.MuField == fname {
+					owner := *a
+					owner.Path = a.Path[:i]
+					return ld, &owner, t
+				}
+			}
+			return nil, nil, nil
+		}
+		t = st.Field(el.Field).Type()
 	}
-	return nil, ""
+	return nil, nil, nil
 }
 
 // reachableComps: component prefixes reachable from the guarded fields of the
 // owner type.
-func (ex *Exec) reachableComps(owner types.Type, ld *LockDecl) map[string]bool {
+func (ex *Exec) reachableComps(ownerAddr *Addr, owner types.Type, ld *LockDecl) map[string]bool {
 	out := map[string]bool{}
 	seen := map[string]bool{}
 	var visit func(t types.Type)
@@ -262,10 +279,11 @@ func (ex *Exec) reachableComps(owner types.Type, ld *LockDecl) map[string]bool {
 		}
 	}
 	st := owner.Underlying().(*types.Struct)
+	base := addrCompPrefix(ownerAddr)
 	for i := 0; i < st.NumFields(); i++ {
 		f := st.Field(i)
 		if ld.Guarded[f.Name()] {
-			out[rootKey(AHeap, owner)+"_"+f.Name()] = true
+			out[base+"_"+f.Name()] = true
 			visit(f.Type())
 		}
 	}
@@ -277,13 +295,14 @@ func (ex *Exec) onLock(st *State, fr *Frame, k string, recv Val, pos token.Pos) 
 	if !ok {
 		return
 	}
-	ld, ref := ex.lockDeclFor(p.A)
+	ld, ownerAddr, ownerT := ex.lockDeclFor(p.A)
 	if ld == nil {
 		return
 	}
+	ref := ownerAddr.Ref
 	// havoc everything the lock guards (interference from other goroutines),
 	// keeping the content of local objects that have not escaped
-	prefixes := ex.reachableComps(p.A.Root, ld)
+	prefixes := ex.reachableComps(ownerAddr, ownerT, ld)
 	old := st.clone()
 	ex.epochs++
 	ex.epochInfo[ex.epochs] = epochInfo{parent: st.epoch, prefixes: prefixes}
@@ -309,8 +328,8 @@ func (ex *Exec) onLock(st *State, fr *Frame, k string, recv Val, pos token.Pos) 
 			}
 		}
 	}
-	if ld.Inv != "" {
-		for _, cj := range ex.invConjuncts(fr, st, ld, ref, p.A.Root) {
+	if ld.Inv != "" && len(ownerAddr.Path) == 0 {
+		for _, cj := range ex.invConjuncts(fr, st, ld, ref, ownerT) {
 			ex.assume(st, cj.term)
 		}
 	}
@@ -417,38 +436,49 @@ func (ex *Exec) onUnlock(st *State, fr *Frame, k string, recv Val, pos token.Pos
 	if !ok {
 		return
 	}
-	ld, ref := ex.lockDeclFor(p.A)
-	if ld == nil || ld.Inv == "" {
+	ld, ownerAddr, ownerT := ex.lockDeclFor(p.A)
+	if ld == nil || ld.Inv == "" || len(ownerAddr.Path) != 0 {
 		return
 	}
-	for _, cj := range ex.invConjuncts(fr, st, ld, ref, p.A.Root) {
+	ref := ownerAddr.Ref
+	for _, cj := range ex.invConjuncts(fr, st, ld, ref, ownerT) {
 		ex.oblige(st, fr, "lock-inv("+ld.MuField+")", token.NoPos, cj.text, cj.term)
 	}
 }
 
-// guardedAccess is called when the address of a field of a lock-owning struct
-// is taken for access.
+// guardedAccess: every field on the address path that a lock declaration
+// lists as guarded requires that lock to be held.
 func (ex *Exec) guardedAccess(st *State, fr *Frame, a *Addr, pos token.Pos) {
-	if !ex.lockChecks || a.Kind != AHeap || len(a.Path) != 1 {
+	if !ex.lockChecks || a.Kind != AHeap || len(a.Path) == 0 || len(ex.db.locks) == 0 {
 		return
 	}
 	top := ex.db.funcs[funcName(ex.top)]
 	if top != nil && top.InitCtx {
 		return
 	}
-	on := ownerName(a.Root)
-	stt, ok := a.Root.Underlying().(*types.Struct)
-	if !ok {
-		return
+	if ex.isLocalRef(a.Ref) && !ex.escaped[a.Ref] {
+		return // object under construction, not yet visible to other goroutines
 	}
-	fname := stt.Field(a.Path[0].Field).Name()
-	for _, ld := range ex.db.locks {
-		if ld.Owner != on || !ld.Guarded[fname] {
-			continue
+	t := a.Root
+	for i, el := range a.Path {
+		if el.IsIdx {
+			return
 		}
-		mi := fieldIndex(stt, ld.MuField)
-		key := (&Addr{Kind: AHeap, Root: a.Root, Ref: a.Ref, ArrLen: -1, Path: []PathEl{{Field: mi}}}).String()
-		ex.oblige(st, fr, "guarded("+fname+")", pos, "", lockTerm(st, key))
+		stt, ok := t.Underlying().(*types.Struct)
+		if !ok {
+			return
+		}
+		on := ownerName(t)
+		fname := stt.Field(el.Field).Name()
+		for _, ld := range ex.db.locks {
+			if ld.Owner != on || !ld.Guarded[fname] {
+				continue
+			}
+			mi := fieldIndex(stt, ld.MuField)
+			lk := &Addr{Kind: AHeap, Root: a.Root, Ref: a.Ref, ArrLen: -1, Path: append(append([]PathEl{}, a.Path[:i]...), PathEl{Field: mi})}
+			ex.oblige(st, fr, "guarded("+fname+")", pos, "", lockTerm(st, lk.String()))
+		}
+		t = stt.Field(el.Field).Type()
 	}
 }
 
@@ -543,9 +573,7 @@ func addrCompPrefix(a *Addr) string {
 }
 
 func (ex *Exec) checkAssigns(st *State, fr *Frame, a *Addr, pos token.Pos) {
-	if a.Kind == AHeap && len(a.Path) >= 1 && !a.Path[0].IsIdx {
-		ex.guardedAccess(st, fr, &Addr{Kind: AHeap, Root: a.Root, Ref: a.Ref, ArrLen: -1, Path: a.Path[:1]}, pos)
-	}
+	ex.guardedAccess(st, fr, a, pos)
 	if !ex.assignsOn || ex.assignsAll || a.Kind == ACell || a.Kind == AGlobal {
 		return
 	}
